@@ -516,10 +516,15 @@ def gen_circuit_op(st, free, used_keys, depth, weights):
     reps = _choice(r, [1, 1, 1, 2, 3, 0, 5] + ([-1, -2] if unitary_sub and not has_meas else []))
     rep_ids, use_ids, until = None, False, None
     u = r.random()
-    if reps > 0 and u < 0.15:
+    if reps != 0 and u < 0.15:
+        # (inverted repetitions carry ids too; a single repetition may be given the id '0' explicitly)
         use_ids = True
-        if r.random() < 0.5:
-            rep_ids = [_choice(r, ["r", "x", "0", "rep"]) + str(i) for i in range(reps)]
+        # (an inverted sub-circuit with ids other than the default ones is the recorded finding
+        # C16:inverted-repetitions-with-custom-ids-lose-the-inversion - the format holds either a count or a list of ids -
+        # and is probed on its own in prog_edges, so that it does not drown the structural comparison here)
+        if r.random() < 0.5 and reps != -1:
+            pre = _choice(r, ["r", "x", "0", "rep", ""]) if reps > 0 else ""
+            rep_ids = [pre + str(i) for i in range(abs(reps))]
     elif reps > 0 and u < 0.22:
         # explicit ids that the operation is told not to use in its keys
         rep_ids = [_choice(r, ["r", "x", "0", "rep"]) + str(i) for i in range(reps)]
